@@ -346,6 +346,187 @@ fn gen_rules() -> BoxedStrategy<Value> {
 }
 
 
+// ------------------------------------------------------------------------------------------------ stepwise rounding
+// Every operator application rounds its own result to a double (and fails when that result is not finite) before the
+// next operator sees it.  Algebraic shortcuts over *compositions* - a fused multiply-add for a * b + c, re-association of
+// sums, distributing a factor, dividing by multiplying with a reciprocal, folding constants at higher precision - keep every
+// single operator right and change the composed result only when an intermediate value is inexact and the operands are of
+// comparable magnitude: the leaves here are built for that.
+
+fn comparable_leaf() -> BoxedStrategy<f64> {
+    prop_oneof![
+        // decimal fractions: k / 10^d
+        6 => (1u32..=999, 1u32..=3, any::<bool>()).prop_map(|(k, d, neg)| { let x = k as f64 / 10f64.powi(d as i32); if neg { -x } else { x } }),
+        // full 53-bit significands with exponents close together
+        6 => (any::<u64>(), -3i32..=3, any::<bool>()).prop_map(|(m, e, neg)| { let x = (1.0 + (m >> 12) as f64 / 4503599627370496.0) * 2f64.powi(e); if neg { -x } else { x } }),
+        3 => (-10i64..=10).prop_map(|i| i as f64),
+        2 => select(vec![1.0 / 3.0, 2.0 / 3.0, 0.1 + 0.2, 1.1, 1e-1, 1e16, 9007199254740993.0, 3.0e-1, 1.0e-17, 0.5, 0.25, 10.0, 100.0, 1e15 + 0.3]),
+        // intermediate overflow: finite when fused or re-associated, an error step by step
+        1 => select(vec![1e308, -1e308, 1.5e308, f64::MAX, 8.98846567431158e307, 2.0, 1e154, 1.5e154, -1e154]),
+        // intermediate underflow
+        1 => select(vec![1e-308, 5e-324, 1e-160, 1.5e-160, 2.2250738585072014e-308, 1e300]),
+    ]
+    .boxed()
+}
+
+fn stepwise_node(inner: gen::VS) -> gen::VS {
+    prop_oneof![
+        4 => (inner.clone(), inner.clone()).prop_map(|(a, b)| op2("+", &a, &b)),
+        4 => (inner.clone(), inner.clone()).prop_map(|(a, b)| op2("*", &a, &b)),
+        3 => (inner.clone(), inner.clone()).prop_map(|(a, b)| op2("-", &a, &b)),
+        3 => (inner.clone(), inner.clone()).prop_map(|(a, b)| op2("/", &a, &b)),
+        1 => (inner.clone(), inner.clone()).prop_map(|(a, b)| op2("%", &a, &b)),
+        1 => (inner.clone(), inner.clone(), inner.clone()).prop_map(|(a, b, c)| opn("+", &[a, b, c])),
+        1 => (inner.clone(), inner.clone(), inner.clone()).prop_map(|(a, b, c)| opn("*", &[a, b, c])),
+        1 => inner.clone().prop_map(|a| opn("-", &[a])),
+        1 => (inner.clone(), inner).prop_map(|(a, b)| op2("max", &a, &b)),
+    ]
+    .boxed()
+}
+
+/// the shapes an algebraic shortcut would look for, over three leaves
+fn stepwise_shapes() -> gen::VS {
+    let l = || comparable_leaf().prop_map(gen::f);
+    (l(), l(), l(), 0u8..14)
+        .prop_map(|(a, b, c, shape)| match shape {
+            0 => op2("+", &op2("*", &a, &b), &c),
+            1 => op2("+", &c, &op2("*", &a, &b)),
+            2 => op2("-", &op2("*", &a, &b), &c),
+            3 => op2("-", &c, &op2("*", &a, &b)),
+            4 => op2("+", &op2("+", &a, &b), &c),
+            5 => op2("+", &a, &op2("+", &b, &c)),
+            6 => op2("*", &a, &op2("+", &b, &c)),
+            7 => op2("+", &op2("*", &a, &b), &op2("*", &a, &c)),
+            8 => op2("*", &op2("/", &a, &b), &c),
+            9 => op2("*", &a, &op2("/", &json!(1), &b)),
+            10 => op2("/", &op2("*", &a, &b), &c),
+            11 => op2("+", &op2("-", &a, &b), &b),
+            12 => op2("*", &op2("*", &a, &b), &c),
+            _ => op2("/", &op2("/", &a, &b), &c),
+        })
+        .boxed()
+}
+
+fn stepwise_tree() -> gen::VS {
+    let leaf = comparable_leaf().prop_map(gen::f).boxed();
+    let rec = leaf.prop_recursive(3, 12, 3, stepwise_node).boxed();
+    // at least two operators: the root and one of its operands
+    let inner_op = stepwise_node(rec.clone());
+    prop_oneof![
+        3 => stepwise_shapes(),
+        2 => stepwise_node(inner_op.clone()),
+        2 => (select(vec!["+", "-", "*", "/"]), inner_op.clone(), rec.clone()).prop_map(|(op, a, b)| op2(op, &a, &b)),
+        2 => (select(vec!["+", "-", "*", "/"]), rec, inner_op).prop_map(|(op, a, b)| op2(op, &a, &b)),
+    ]
+    .boxed()
+}
+
+/// move some leaves into the data (read back through var) and spell some as numeric strings
+fn externalise(v: &Value, next: &mut usize, vars: u64, texts: u64, data: &mut serde_json::Map<String, Value>) -> Value {
+    match v {
+        Value::Number(n) => {
+            let i = *next;
+            *next += 1;
+            let bit = 1u64 << (i % 64);
+            let mut leaf = v.clone();
+            if texts & bit != 0 && i % 5 == 0 {
+                // serde_json prints the shortest digits that read back as the same double
+                leaf = Value::String(n.to_string());
+            }
+            if vars & bit != 0 {
+                let key = format!("v{}", i);
+                data.insert(key.clone(), leaf);
+                json!({ "var": key })
+            } else {
+                leaf
+            }
+        }
+        Value::Array(items) => Value::Array(items.iter().map(|x| externalise(x, next, vars, texts, data)).collect()),
+        Value::Object(m) => Value::Object(m.iter().map(|(k, x)| (k.clone(), externalise(x, next, vars, texts, data))).collect()),
+        other => other.clone(),
+    }
+}
+
+fn gen_stepwise() -> BoxedStrategy<Value> {
+    (stepwise_tree(), any::<u64>(), any::<u64>())
+        .prop_map(|(tree, vars, texts)| {
+            let mut data = serde_json::Map::new();
+            let mut next = 0usize;
+            let rule = externalise(&tree, &mut next, vars, texts, &mut data);
+            json!({"rule": rule, "data": Value::Object(data)})
+        })
+        .boxed()
+}
+
+fn arith_nodes(v: &Value) -> usize {
+    match model::eval::as_operation(v) {
+        Some((name, operand)) if name != "var" => 1 + operand.as_array().map(|a| a.iter().map(arith_nodes).sum()).unwrap_or(0),
+        _ => 0,
+    }
+}
+
+/// leaf value of a number, a numeric string or a var reference to one
+fn leaf_value(v: &Value, data: &Value) -> Option<f64> {
+    match v {
+        Value::Number(n) => n.as_f64(),
+        Value::String(s) => s.parse::<f64>().ok(),
+        Value::Object(_) => match model::eval::as_operation(v) {
+            Some(("var", k)) => k.as_str().and_then(|k| data.get(k)).and_then(|x| leaf_value(x, &Value::Null)),
+            _ => None,
+        },
+        _ => None,
+    }
+}
+
+/// does the rule contain a * b + c (either order) over leaves where a fused multiply-add would give another double, or
+/// (a + b) + c / a + (b + c) over leaves where the other association would?
+fn shortcut_sensitive(v: &Value, data: &Value) -> bool {
+    let Some((name, operand)) = model::eval::as_operation(v) else { return false };
+    let Some(args) = operand.as_array() else { return false };
+    if args.iter().any(|a| shortcut_sensitive(a, data)) {
+        return true;
+    }
+    if (name == "+" || name == "-") && args.len() == 2 {
+        for (inner, other) in [(&args[0], &args[1]), (&args[1], &args[0])] {
+            if let (Some((iname, ioperand)), Some(c)) = (model::eval::as_operation(inner), leaf_value(other, data)) {
+                if let Some([x, y]) = ioperand.as_array().map(|a| a.as_slice()) {
+                    if let (Some(a), Some(b)) = (leaf_value(x, data), leaf_value(y, data)) {
+                        let c = if name == "-" { -c } else { c };
+                        if iname == "*" && (a * b).is_finite() && a.mul_add(b, c) != a * b + c {
+                            return true;
+                        }
+                        if iname == "+" && name == "+" && (a + b) + c != a + (b + c) {
+                            return true;
+                        }
+                    }
+                }
+            }
+        }
+    }
+    false
+}
+
+fn check_stepwise(case: &Value, obs: &mut Obs) -> Result<(), String> {
+    let (rule, data) = (rule_of(case), data_of(case));
+    let d = diff(rule, data, obs, TraceMode::None)?;
+    let nodes = arith_nodes(rule);
+    match &d.model {
+        Res::Unspec(_) => obs.class("unspecified"),
+        _ if nodes < 2 => obs.class("a single operator"),
+        Res::Err => obs.nt("composition: an intermediate or final result is not finite (error)"),
+        Res::Ok(_) => {
+            if shortcut_sensitive(rule, data) {
+                obs.nt("composition: a fused multiply-add or the other association would give another double");
+            } else if d.model.is_ok() && rule.to_string().contains('.') || data.to_string().contains('.') {
+                obs.nt("composition: fractional leaves");
+            } else {
+                obs.class("composition over integers");
+            }
+        }
+    }
+    Ok(())
+}
+
 /// accumulated state: see common::sweep
 fn sweep_item(kind: u64, k: usize) -> (Value, Value) {
     match kind % 4 {
@@ -520,6 +701,18 @@ pub fn property() -> Property {
                 check: check_laws,
                 quick: 40_000,
                 thorough: 2_000_000,
+                small_stack: false,
+            },
+            Sub {
+                name: "stepwise_rounding",
+                about: "compositions of + - * / % max, two to twelve operators deep to three levels, over leaves of comparable magnitude whose products, quotients and sums are inexact (decimal fractions k/10^d, full 53-bit significands with exponents within 2^-3..2^3, 1/3, 0.1+0.2, values whose product overflows or underflows although the whole expression would not) - literal, through var, or as numeric strings - against the reference model, which rounds after every operator: each application yields its own correctly rounded double, or an error when that double is not finite, before the next operator sees it. Reports algebraic shortcuts across operators (fused multiply-add, re-association, distribution, reciprocal multiplication, constant folding at another precision) that leave every single operator right.",
+                nontrivial: "at least two operators and the model determines the outcome, and: an intermediate result is not finite (error), or the rule contains a*b+c / (a+b)+c over leaves for which the fused or re-associated evaluation gives a different double (counted separately), or some leaf is fractional.",
+                strategy: Some(gen_stepwise),
+                fixed: None,
+                fixed_exhaustive: false,
+                check: check_stepwise,
+                quick: 150_000,
+                thorough: 8_000_000,
                 small_stack: false,
             },
             Sub {
